@@ -235,8 +235,11 @@ def mk(rng, sig=None):
         segs = [parts[3] if sig in (8, 9) else parts[2]] if sig in INT else parts[4:] if sig in COMBO else parts[3:] if sig in SIGS else [parts[2], parts[4]] if sig == 22 else [parts[3]] if sig == 20 else []
         segs = segs[:2]
     caps = [s.encode().hex() for s in segs][:len(ptys)] if sig != 22 else [segs[0].encode().hex()]
-    return {'case': {'sig': sig, 'method': method, 'target': tb.hex(), 'headers': [[hx(k), hx(v)] for k, v in headers], 'body': body.hex() if body else None,
-                     'ptys': ptys, 'captures': caps, 'items': items}}
+    case = {'sig': sig, 'method': method, 'target': tb.hex(), 'headers': [[hx(k), hx(v)] for k, v in headers], 'body': body.hex() if body else None,
+            'ptys': ptys, 'captures': caps, 'items': items}
+    if body and rng.random() < 0.15:          # bytes behind the body in the same read (a stray CRLF, the next pipelined request, noise): the payload is the Content-Length bytes
+        case['tail'] = rng.choice([b'\r\n', b'GET /nowhere HTTP/1.1\r\n\r\n', b'POST /t/p19 HTTP/1.1\r\nContent-Type: text/plain\r\nContent-Length: 3\r\n\r\nabc', b'}', b'x', bytes(rng.randrange(256) for _ in range(rng.choice([1, 7, 40])))]).hex()
+    return {'case': case}
 
 
 def corpus():
